@@ -145,6 +145,9 @@ func (p *parser) ParseConfig(data []byte, fName string) (
 			line = line[indent:]
 			// Ignore sub-sub command.
 			if line[0] == ' ' {
+				if isRaw {
+					errlog.Warning("Ignoring unknown subcommand in raw:\n>>%s<<", line)
+				}
 				continue
 			}
 			// Get arguments.  Use strings.Fields, not strings.Split to
@@ -155,6 +158,9 @@ func (p *parser) ParseConfig(data []byte, fName string) (
 				prev.sub = append(prev.sub, c)
 				c.subCmdOf = prev
 				c.append = isAppend
+			} else if isRaw {
+				// Must not ignore unknown subcommand silently.
+				errlog.Warning("Ignoring unknown subcommand in raw:\n>>%s<<", line)
 			}
 		}
 	}
